@@ -6,7 +6,7 @@ JSON_TB = "encoding/json is modelled (lean/Varlink/Json.lean), validated against
 def conn_streams(quick_n, thorough_n, extra=()):
     def f(tier):
         n = quick_n if tier == "quick" else thorough_n
-        return [("conn", ["-n", str(n)])] + [(s, list(a)) for s, a in extra]
+        return [("conn", ["-n", str(n)])] + [(s, ["-n", str(q if tier == "quick" else t)]) for s, q, t in extra]
     return f
 
 
@@ -32,14 +32,14 @@ PROPS = {
         "assumptions": [],
     },
     "C18": {
-        "streams": streams(("ctxio", 4000, 100000)),
-        "rule": "random byte streams (empty frames, frames > 4096 bytes, payload without NUL) x segmentations (one segment, byte-wise, at NULs, random) x interleavings of frame reads and raw reads of sizes 1..10000; non-trivial = at least 2 segments or 2 frames and at least one operation",
+        "streams": streams(("ctxio", 4000, 100000), ("upgrade", 600, 20000)),
+        "rule": "(upgrade) upgraded calls end to end: real Service handler reading through Call.Conn from a raw client that sends request frame and payload in one write; real Connection.Upgrade reading through the returned object from a raw server that sends reply frame and payload in one write; real client <-> real service with payload both ways; payload sizes 1..20000, read buffers 1..70000 (below/at/above the 4096-byte reader buffer); (ctxio) random byte streams (empty frames, frames > 4096 bytes, payload without NUL) x segmentations (one segment, byte-wise, at NULs, random) x interleavings of frame reads and raw reads of sizes 1..10000; non-trivial = at least 2 segments or 2 frames and at least one operation",
         "trusted_base": [BUFIO_TB, "the go/ast extractor that reports which object each read primitive uses"],
         "assumptions": ["net.Conn.Read never returns (0, nil)"],
     },
     "C01": {
-        "streams": conn_streams(3000, 60000),
-        "rule": "random registry x sequence of 0-25 request frames (valid calls with scripted handler behaviour carried in the parameters, built-in calls, malformed frames) x segmentation; non-trivial = at least 2 calls on the connection or a handler script with at least 2 actions",
+        "streams": conn_streams(3000, 60000, extra=[("multiconn", 150, 3000)]),
+        "rule": "(multiconn) one service, 2/4/8 concurrent connections over a real unix socket, each with its own stream and segmentation, replies compared per connection with the model of that connection alone; (conn) random registry x sequence of 0-25 request frames (valid calls with scripted handler behaviour carried in the parameters, built-in calls, malformed frames) x segmentation; non-trivial = at least 2 calls on the connection or a handler script with at least 2 actions",
         "trusted_base": [JSON_TB, "bufio.Reader modelled (lean/Varlink/Frame.lean)"],
         "assumptions": ["goroutine scheduling inside one handler is not modelled; N-connection runs sample it"],
     },
